@@ -5,6 +5,7 @@ import (
 	"reflect"
 
 	"github.com/osteele/liquid/values"
+	"github.com/osteele/liquid/verifhook"
 )
 
 // An InterpreterError is an error during expression interpretation.
@@ -62,6 +63,7 @@ func isClosureInterfaceType(t reflect.Type) bool {
 }
 
 func (ctx *context) ApplyFilter(name string, receiver valueFn, params []valueFn) (any, error) {
+	verifhook.Step(verifhook.SiteApplyFilter)
 	filter, ok := ctx.filters[name]
 	if !ok {
 		panic(UndefinedFilter(name))
